@@ -81,11 +81,11 @@ static Matrix<4,4,double> pattern ()
 { Matrix<4,4,double> P; for (unsigned i=0;i<4;i++) for (unsigned j=0;j<4;j++) P[i][j] = 1.0 + 0.25*i + 0.0625*j + (i==j ? 1.0 : 0.0); return P; }
 class stub_mode : public epsic::mode {
 public:
-  double cv; std::vector<double> x; mutable unsigned long fields = 0;
+  double cv = 1; std::vector<double> x; mutable unsigned long fields = 0; Spinor<double> field = Spinor<double>(std::complex<double>(1,0), std::complex<double>(0,0));
   Matrix<4,4,double> get_covariance () const { Matrix<4,4,double> P = pattern(); P *= cv; return P; }
   Matrix<4,4,double> get_crosscovariance (unsigned ilag) const
   { Matrix<4,4,double> P = pattern(); P *= (ilag < x.size() ? x[ilag] : 0.0); return P; }
-  Spinor<double> get_field () { fields++; return Spinor<double>(std::complex<double>(1,0), std::complex<double>(0,0)); }
+  Spinor<double> get_field () { fields++; return field; }
 };
 
 // a modulation source with scripted values and declared mean / variance (C07)
@@ -114,6 +114,50 @@ static epsic::mode* make_mode (A_& A, const Stokes<double>& S, BoxMuller* bm, ep
   else throw std::runtime_error ("protocol:mode kind");
   if (modp) *modp = mod;
   return top;
+}
+
+// ---------------------------------------------------------------- C05 helpers
+static epsic::combination* make_dual (const std::string& kind, double f)
+{
+  if (kind == "superposed") return new epsic::superposed;
+  if (kind == "composite") return new epsic::composite (f);
+  if (kind == "disjoint") return new epsic::disjoint (f);
+  if (kind == "coherent") return new epsic::coherent (f);
+  throw std::runtime_error ("protocol:dual kind");
+}
+// a coordinator whose pair of factors is one of K scripted outcomes (selected by the oracle): any unit-mean joint law
+class discrete_coord : public epsic::covariant_coordinator {
+public:
+  std::vector<double> a, b, p; unsigned current = 0; double ma = 0, mb = 0, va = 0, vb = 0, cab = 0;
+  static double corr (const std::vector<double>& a, const std::vector<double>& b, const std::vector<double>& p)
+  { long double ma=0,mb=0,saa=0,sbb=0,sab=0; for (size_t k=0;k<p.size();k++) { ma+=p[k]*a[k]; mb+=p[k]*b[k]; saa+=p[k]*a[k]*a[k]; sbb+=p[k]*b[k]*b[k]; sab+=p[k]*a[k]*b[k]; }
+    long double va = saa-ma*ma, vb = sbb-mb*mb; return (va > 0 && vb > 0) ? (double)((sab-ma*mb)/sqrtl(va*vb)) : 0.0; }
+  discrete_coord (const std::vector<double>& a_, const std::vector<double>& b_, const std::vector<double>& p_) : covariant_coordinator (corr (a_, b_, p_)), a(a_), b(b_), p(p_)
+  { long double saa=0,sbb=0; for (size_t k=0;k<p.size();k++) { ma+=p[k]*a[k]; mb+=p[k]*b[k]; saa+=p[k]*a[k]*a[k]; sbb+=p[k]*b[k]*b[k]; } va = saa-ma*ma; vb = sbb-mb*mb; }
+  void get_modulation (double& x, double& y) { x = a[current]; y = b[current]; }
+  double get_mod_mean (unsigned i) const { return i ? mb : ma; }
+  double get_mod_variance (unsigned i) const { return i ? vb : va; }
+};
+struct Moments { long double mean[4] = {0,0,0,0}; long double sec[4][4] = {{0}}; bool finite = true; };
+// product cubature over `ndev` normal deviates: nodes 0,+-1,+-2 with weights 1/2,1/6,1/12 (exact for degree <= 5 in each deviate)
+template<class F> static void cubature (unsigned ndev, long double weight, Moments& M, F sample)
+{
+  static const float node[5] = { 0, 1, -1, 2, -2 }; static const long double wt[5] = { 0.5L, 1.0L/6, 1.0L/6, 1.0L/12, 1.0L/12 };
+  std::vector<unsigned> idx (ndev, 0);
+  while (true) {
+    long double w = weight; g_normal.clear(); for (unsigned d=0; d<ndev; d++) { g_normal.push_back (node[idx[d]]); w *= wt[idx[d]]; }
+    Stokes<double> st = sample();
+    for (int i=0;i<4;i++) { M.finite = M.finite && std::isfinite (st[i]); M.mean[i] += w*st[i]; for (int j=0;j<4;j++) M.sec[i][j] += w*(long double)st[i]*st[j]; }
+    unsigned d = 0; while (d < ndev && ++idx[d] == 5) { idx[d] = 0; d++; }
+    if (d == ndev) break;
+  }
+}
+static void report (O_& O, const Moments& M, const Vector<4,double>& pm, const Matrix<4,4,double>& pc, double I)
+{
+  long double scale = std::max ((long double) std::fabs (I), 1e-300L), e1 = 0, e2 = 0; bool finite = M.finite;
+  for (int i=0;i<4;i++) { finite = finite && std::isfinite (pm[i]); e1 = std::max (e1, fabsl (M.mean[i] - pm[i]) / scale);
+    for (int j=0;j<4;j++) { finite = finite && std::isfinite (pc[i][j]); e2 = std::max (e2, fabsl (M.sec[i][j] - M.mean[i]*M.mean[j] - pc[i][j]) / (scale*scale)); } }
+  O.puti (finite ? 1 : 0); O.put ((double) e1); O.put ((double) e2);
 }
 
 static BoxMuller g_bm (0);
@@ -283,6 +327,138 @@ int main ()
     O.puti (finite ? 1 : 0);
     O.put ((double) fabsl (ma1 - 1)); O.put ((double) fabsl (mb1 - 1)); O.put ((double) (fabsl (va - b0*b0) / (b0*b0))); O.put ((double) (fabsl (vb - b1*b1) / (b1*b1)));
     O.put ((double) (fabsl (cab - rho*b0*b1) / (b0*b1))); O.put ((double) (fabsl (cab - co->get_intensity_covariance()) / (b0*b1))); };
+
+
+  // ------------------------------------------------------------ C05: dual-mode samples
+  // instances drawn per mode and what the generator sums, with constant-field stubs:
+  // A delivers the field (1,0) -> Stokes (1,1,0,0), B the field (0,2) -> Stokes (4,-4,0,0)
+  OP("du.counts") { std::string kind = A.next(); double f = A.d(); unsigned n = A.n(); if (!A.done()) g_random.push_back ((long) A.n());
+    epsic::combination* c = make_dual (kind, f); stub_mode* a = new stub_mode; stub_mode* b = new stub_mode; b->field = Spinor<double>(std::complex<double>(0,0), std::complex<double>(2,0));
+    c->A = a; c->B = b; epsic::sample* smp = c; smp->sample_size = n; Stokes<double> st = smp->get_Stokes();
+    O.puti (a->fields); O.puti (b->fields); O.put (Vector<4,double>(st)); O.puti (g_random_calls); };
+  // predictions for real (optionally modulated) modes
+  OP("du.theory") { std::string kind = A.next(); double f = A.d(); unsigned n = A.n(); double kappa = A.d(); unsigned lag = A.n();
+    Stokes<double> SA = A.stokes(); epsic::mode* ma = make_mode (A, SA, &g_bm); Stokes<double> SB = A.stokes(); epsic::mode* mb = make_mode (A, SB, &g_bm);
+    epsic::combination* c = make_dual (kind, f); c->A = ma; c->B = mb; c->set_intensity_covariance (kappa); epsic::sample* smp = c; smp->sample_size = n;
+    O.put (smp->get_mean()); O.put (smp->get_covariance()); O.put (smp->get_crosscovariance (lag)); };
+  // the generator on scripted deviates (plain modes): same deviates, same sample
+  OP("du.gen") { std::string kind = A.next(); double f = A.d(); unsigned n = A.n(); long r = (long) A.n(); Stokes<double> SA = A.stokes(); Stokes<double> SB = A.stokes();
+    while (!A.done()) g_normal.push_back ((float) A.d()); g_random.push_back (r);
+    epsic::combination* c = make_dual (kind, f); c->A->set_Stokes (SA); c->B->set_Stokes (SB); c->set_normal (&g_bm); epsic::sample* smp = c; smp->sample_size = n;
+    Stokes<double> st = smp->get_Stokes(); O.put (Vector<4,double>(st)); O.puti (g_normal_calls); O.puti (g_random_calls); };
+
+  // oracle: exact ensemble moments of ONE superposed instance (5-node product cubature over the 8 deviates, exact for the
+  // degree-4 products) under a discrete joint distribution of the two modulation factors (K outcomes a_k, b_k, p_k with unit
+  // means), against the prediction for sample size 1.  Output: finite flag, max relative error of mean, of covariance
+  OP("o.c05.super") { Stokes<double> SA = A.stokes(); Stokes<double> SB = A.stokes(); unsigned K = A.n();
+    std::vector<double> a, b, p; for (unsigned k=0;k<K;k++) { a.push_back (A.d()); b.push_back (A.d()); p.push_back (A.d()); }
+    discrete_coord* co = K ? new discrete_coord (a, b, p) : 0;
+    epsic::superposed* c = new epsic::superposed; c->A->set_Stokes (SA); c->B->set_Stokes (SB); c->set_normal (&g_bm);
+    if (co) { c->A = co->get_modulated_mode (0, c->A); c->B = co->get_modulated_mode (1, c->B); c->set_intensity_covariance (co->get_intensity_covariance()); }
+    epsic::sample* smp = c; smp->sample_size = 1; Moments M;
+    for (unsigned k=0; k<std::max(K,1u); k++) { if (co) co->current = k; cubature (8, co ? p[k] : 1.0, M, [&]() { return smp->get_Stokes(); }); }
+    report (O, M, smp->get_mean(), smp->get_covariance(), SA[0] + SB[0]); };
+  // oracle: composite sample.  The numbers of instances really summed (a from A, b from B) are measured with stubs; the exact
+  // ensemble moments of what is generated are then (a A + b B)/n and (a C_A + b C_B + min(a,b) kappa (AB^T + BA^T))/n^2 with the
+  // per-instance moments A, C_A, B, C_B obtained by cubature through the real modes; compared with the prediction
+  OP("o.c05.composite") { double f = A.d(); unsigned n = A.n(); double kappa = A.d(); Stokes<double> SA = A.stokes(); Stokes<double> SB = A.stokes();
+    epsic::composite* cs = new epsic::composite (f); stub_mode* sa = new stub_mode; stub_mode* sb = new stub_mode; cs->A = sa; cs->B = sb;
+    sb->field = Spinor<double>(std::complex<double>(0,0), std::complex<double>(2,0)); epsic::sample* ss = cs; ss->sample_size = n; Stokes<double> st = ss->get_Stokes();
+    long double na = (st[0]*n + st[1]*n) / 2, nb = (st[0]*n - st[1]*n) / 8;   // I = a + 4 b, Q = a - 4 b  (times 1/n)
+    epsic::composite* c = new epsic::composite (f); c->A->set_Stokes (SA); c->B->set_Stokes (SB); c->set_normal (&g_bm); c->set_intensity_covariance (kappa);
+    epsic::sample* smp = c; smp->sample_size = n;
+    epsic::single one_a (new epsic::mode), one_b (new epsic::mode); one_a.source->set_Stokes (SA); one_b.source->set_Stokes (SB); one_a.source->set_normal (&g_bm); one_b.source->set_normal (&g_bm);
+    Moments MA, MB; cubature (4, 1.0, MA, [&]() { return one_a.get_Stokes(); }); cubature (4, 1.0, MB, [&]() { return one_b.get_Stokes(); });
+    Vector<4,double> pm = smp->get_mean(); Matrix<4,4,double> pc = smp->get_covariance(); long double scale = std::max ((long double) std::fabs (SA[0] + SB[0]), 1e-300L), e1 = 0, e2 = 0; bool finite = MA.finite && MB.finite;
+    for (int i=0;i<4;i++) { long double em = (na*MA.mean[i] + nb*MB.mean[i]) / n; finite = finite && std::isfinite (pm[i]); e1 = std::max (e1, fabsl (em - pm[i]) / scale);
+      for (int j=0;j<4;j++) { long double ca = MA.sec[i][j] - MA.mean[i]*MA.mean[j], cb = MB.sec[i][j] - MB.mean[i]*MB.mean[j];
+        long double ec = (na*ca + nb*cb + std::min (na, nb) * kappa * (MA.mean[i]*MB.mean[j] + MB.mean[i]*MA.mean[j])) / ((long double)n*n);
+        finite = finite && std::isfinite (pc[i][j]); e2 = std::max (e2, fabsl (ec - pc[i][j]) / (scale*scale)); } }
+    O.puti (finite ? 1 : 0); O.put ((double) e1); O.put ((double) e2); O.puti ((long) na); O.puti ((long) nb); O.puti (sa->fields); O.puti (sb->fields); };
+  // oracle: disjoint sample.  The selection probability is counted exactly over the whole range of random() by bisection
+  // (the comparison random()/RAND_MAX < f is monotone in random()); which mode generates is observed with stubs; the exact
+  // moments of what is generated are the mixture of the per-mode sample moments (cubature, 4 deviates per instance, n <= 2)
+  OP("o.c05.disjoint") { double f = A.d(); unsigned n = A.n(); Stokes<double> SA = A.stokes(); Stokes<double> SB = A.stokes();
+    auto selects_A = [&](long r) { epsic::disjoint d (f); stub_mode* sa = new stub_mode; stub_mode* sb = new stub_mode; d.A = sa; d.B = sb; epsic::sample* s = &d; s->sample_size = 1;
+      g_random.clear(); g_random.push_back (r); s->get_Stokes(); bool isA = sa->fields == 1 && sb->fields == 0; bool isB = sa->fields == 0 && sb->fields == 1;
+      if (!isA && !isB) throw std::runtime_error ("disjoint sample drew from both or neither mode"); return isA; };
+    long double pA; if (!selects_A (0)) pA = 0; else if (selects_A (RAND_MAX)) pA = 1; else { long lo = 0, hi = RAND_MAX; while (hi - lo > 1) { long mid = lo + (hi - lo)/2; if (selects_A (mid)) lo = mid; else hi = mid; } pA = ((long double) lo + 1) / ((long double) RAND_MAX + 1); }
+    epsic::disjoint* c = new epsic::disjoint (f); c->A->set_Stokes (SA); c->B->set_Stokes (SB); c->set_normal (&g_bm); epsic::sample* smp = c; smp->sample_size = n;
+    epsic::single one_a (new epsic::mode), one_b (new epsic::mode); one_a.source->set_Stokes (SA); one_b.source->set_Stokes (SB); one_a.source->set_normal (&g_bm); one_b.source->set_normal (&g_bm);
+    one_a.sample_size = n; one_b.sample_size = n;
+    Moments MA, MB; cubature (4*n, 1.0, MA, [&]() { return one_a.get_Stokes(); }); cubature (4*n, 1.0, MB, [&]() { return one_b.get_Stokes(); });
+    Vector<4,double> pm = smp->get_mean(); Matrix<4,4,double> pc = smp->get_covariance(), px = smp->get_crosscovariance (1);
+    long double scale = std::max ((long double) std::fabs (SA[0] + SB[0]), 1e-300L), e1 = 0, e2 = 0, e3 = 0; bool finite = MA.finite && MB.finite;
+    for (int i=0;i<4;i++) { long double em = pA*MA.mean[i] + (1-pA)*MB.mean[i]; finite = finite && std::isfinite (pm[i]); e1 = std::max (e1, fabsl (em - pm[i]) / scale);
+      for (int j=0;j<4;j++) { long double es = pA*MA.sec[i][j] + (1-pA)*MB.sec[i][j]; long double emj = pA*MA.mean[j] + (1-pA)*MB.mean[j];
+        finite = finite && std::isfinite (pc[i][j]) && std::isfinite (px[i][j]);
+        e2 = std::max (e2, fabsl (es - em*emj - pc[i][j]) / (scale*scale)); e3 = std::max (e3, fabsl ((long double) px[i][j]) / (scale*scale)); } }   // successive samples are independent: lag-1 cross-covariance 0
+    O.puti (finite ? 1 : 0); O.put ((double) e1); O.put ((double) e2); O.put ((double) e3); O.put ((double) fabsl (pA - f)); };
+  // oracle: coherent sample of one instance: ensemble over the 4 deviates of the coupling mode (cubature) and over the phase
+  // (N equally spaced values of the uniform deviate: exact for the harmonics present), against the predicted mean, and the
+  // predicted covariance (meaningful at zero coherence)
+  OP("o.c05.coherent") { double coh = A.d(); Stokes<double> SA = A.stokes(); Stokes<double> SB = A.stokes(); unsigned N = A.n();
+    // optional independent discrete modulation of each mode: K values v_k with probabilities p_k (unit mean)
+    struct point_mod : public epsic::modulated_mode { std::vector<double> v, p; unsigned current = 0; unsigned long calls = 0; double mu = 0, var = 0;
+      point_mod (epsic::mode* s, const std::vector<double>& v_, const std::vector<double>& p_) : modulated_mode (s), v(v_), p(p_)
+      { long double m = 0, q = 0; for (size_t k=0;k<v.size();k++) { m += p[k]*v[k]; q += p[k]*v[k]*v[k]; } mu = m; var = q - m*m; }
+      double modulation () { calls++; return v[current]; } double get_mod_mean () const { return mu; } double get_mod_variance () const { return var; } };
+    auto read_mod = [&](epsic::mode* base) -> point_mod* { if (A.done()) return 0; unsigned K = A.n(); if (!K) return 0; std::vector<double> v, p; for (unsigned k=0;k<K;k++) { v.push_back (A.d()); p.push_back (A.d()); } return new point_mod (base, v, p); };
+    epsic::coherent* c = new epsic::coherent (coh); c->A->set_Stokes (SA); c->B->set_Stokes (SB); c->set_normal (&g_bm);
+    point_mod* pa = read_mod (c->A); if (pa) c->A = pa; point_mod* pb = read_mod (c->B); if (pb) c->B = pb;
+    epsic::sample* smp = c; smp->sample_size = 1; Moments M; unsigned long draws = 0;
+    unsigned KA = pa ? pa->v.size() : 1, KB = pb ? pb->v.size() : 1;
+    for (unsigned ka=0;ka<KA;ka++) for (unsigned kb=0;kb<KB;kb++) { if (pa) pa->current = ka; if (pb) pb->current = kb; long double wgt = (pa ? pa->p[ka] : 1.0) * (pb ? pb->p[kb] : 1.0);
+      for (unsigned k=0;k<N;k++) cubature (4, wgt/N, M, [&]() { g_uniform.clear(); g_uniform.push_back ((k + 0.5) / N); draws++; return smp->get_Stokes(); }); }
+    bool counts_ok = (!pa || pa->calls == draws) && (!pb || pb->calls == draws);
+    report (O, M, smp->get_mean(), smp->get_covariance(), SA[0] + SB[0]); O.puti (counts_ok ? 1 : 0); };
+  // oracle: lagged cross-covariance between successive composite samples when mode A is boxcar-modulated (iid draws of unit
+  // mean and variance `var` through the real filter of width w), fields deterministic (stubs), B unmodulated.  The sample is
+  // affine in the draws, so its exact cross-covariance follows from the impulse responses.  Output: |exact - predicted| for
+  // the I,I entry, then exact and predicted
+  OP("o.c05.lagcomposite") { double f = A.d(); unsigned n = A.n(); unsigned w = A.n(); unsigned lag = A.n(); double var = A.d();
+    unsigned T = lag + 1; unsigned per = n; unsigned P = w - 1 + per * (T + 1) + 2;
+    auto run = [&](int impulse, std::vector<double>& out, double* predicted) {
+      epsic::composite* c = new epsic::composite (f); stub_mode* sa = new stub_mode; sa->cv = 0; sa->set_Stokes (Stokes<double>(1,1,0,0)); stub_mode* sb = new stub_mode; sb->cv = 0;
+      sb->field = Spinor<double>(std::complex<double>(0,0), std::complex<double>(2,0)); sb->set_Stokes (Stokes<double>(4,-4,0,0));
+      scripted_mod* sm = new scripted_mod (sa, 1.0, var); for (unsigned q=0;q<P;q++) sm->values.push_back ((int) q == impulse ? 2.0 : 1.0);
+      c->A = new epsic::boxcar_modulated_mode (sm, w); c->B = sb; epsic::sample* smp = c; smp->sample_size = n;
+      if (predicted) *predicted = smp->get_crosscovariance (lag)[0][0];
+      out.clear(); for (unsigned t=0;t<=T;t++) out.push_back (smp->get_Stokes()[0]); };
+    std::vector<double> base; double predicted = 0; run (-1, base, &predicted);
+    long double acc = 0; for (unsigned p=0;p<P;p++) { std::vector<double> o; run ((int) p, o, 0); acc += ((long double) o[1] - base[1]) * ((long double) o[1+lag] - base[1+lag]); }
+    long double exact = var * acc; O.put ((double) fabsl (exact - predicted)); O.put ((double) exact); O.put (predicted); };
+  // oracle: a disjoint sample that always (never) selects mode A is a single sample of A (B): its predicted lagged
+  // cross-covariance must be the one of epsic::single, for boxcar-modulated modes too.  Output: max |difference| over the entries
+  OP("o.c05.lagdisjoint") { unsigned sel = A.n(); unsigned n = A.n(); unsigned lag = A.n(); Stokes<double> S = A.stokes(); epsic::mode* m = make_mode (A, S, &g_bm);
+    epsic::disjoint* d = new epsic::disjoint (sel ? 1.0 : 0.0); if (sel) d->A = m; else d->B = m; epsic::sample* smp = d; smp->sample_size = n;
+    epsic::single one (m); one.sample_size = n; Matrix<4,4,double> x = smp->get_crosscovariance (lag), y = one.get_crosscovariance (lag);
+    double worst = 0, scale = std::max (std::fabs (y[0][0]), 1e-300); for (int i=0;i<4;i++) for (int j=0;j<4;j++) worst = std::max (worst, std::fabs (x[i][j] - y[i][j]));
+    O.put (worst / std::max (scale, S[0]*S[0])); };
+
+
+  // oracle: superposed sample of covariant modes that are both boxcar-smoothed (width w): iid joint draws (a_q, b_q) with unit
+  // means, variances va, vb and covariance k through the real coordinator queues and the real filters; deterministic
+  // orthogonal stub fields, for which the I component of the superposition is exactly mA + 4 mB.  Var(I) of the sample mean
+  // follows from the impulse responses.  Output: |exact - predicted| of the I,I entry, exact, predicted
+  OP("o.c05.covboxcar") { unsigned n = A.n(); unsigned w = A.n(); double va = A.d(); double vb = A.d(); double k = A.d();
+    struct pairs : public epsic::covariant_coordinator { std::deque<double> a, b; double va, vb;
+      pairs (double corr, double va_, double vb_) : covariant_coordinator (corr), va(va_), vb(vb_) {}
+      void get_modulation (double& x, double& y) { if (a.empty()) throw Exhausted ("pairs-exhausted"); x = a.front(); y = b.front(); a.pop_front(); b.pop_front(); }
+      double get_mod_mean (unsigned) const { return 1; } double get_mod_variance (unsigned i) const { return i ? vb : va; } };
+    unsigned P = w + n + 2;
+    auto run = [&](int ia, int ib, double* predicted) {
+      pairs* co = new pairs (k / std::sqrt (va*vb), va, vb); for (unsigned q=0;q<P;q++) { co->a.push_back ((int) q == ia ? 2.0 : 1.0); co->b.push_back ((int) q == ib ? 2.0 : 1.0); }
+      stub_mode* sa = new stub_mode; sa->cv = 0; sa->set_Stokes (Stokes<double>(1,1,0,0)); stub_mode* sb = new stub_mode; sb->cv = 0;
+      sb->field = Spinor<double>(std::complex<double>(0,0), std::complex<double>(2,0)); sb->set_Stokes (Stokes<double>(4,-4,0,0));
+      epsic::modulated_mode* ca = co->get_modulated_mode (0, sa); epsic::modulated_mode* cb = co->get_modulated_mode (1, sb);
+      epsic::superposed* c = new epsic::superposed; c->A = (w > 1) ? (epsic::mode*) new epsic::boxcar_modulated_mode (ca, w) : ca; c->B = (w > 1) ? (epsic::mode*) new epsic::boxcar_modulated_mode (cb, w) : cb;
+      c->set_intensity_covariance (co->get_intensity_covariance()); epsic::sample* smp = c; smp->sample_size = n;
+      if (predicted) *predicted = smp->get_covariance()[0][0];
+      return (long double) smp->get_Stokes()[0]; };
+    double predicted = 0; long double base = run (-1, -1, &predicted), saa = 0, sbb = 0, sab = 0;
+    for (unsigned q=0;q<P;q++) { long double ca = run ((int) q, -1, 0) - base, cb = run (-1, (int) q, 0) - base; saa += ca*ca; sbb += cb*cb; sab += ca*cb; }
+    long double exact = va*saa + vb*sbb + 2*k*sab; O.put ((double) fabsl (exact - predicted)); O.put ((double) exact); O.put (predicted); };
 
   std::string line;
   while (std::getline (std::cin, line)) {
